@@ -45,7 +45,9 @@ func verifH_C01_number() {
 	}
 	v := verifLeafValue("v", verifChoose("vkind", 3), 1)
 	err := verifVisit(s, v, 0)
-	verifAssert((err == nil) == verifRef(s, v), "C01 number: accept iff reference accepts")
+	want := verifRef(s, v)
+	verifAssert((err == nil) == want, "C01 number: accept iff reference accepts")
+	verifAssert(s.IsMatching(v) == want, "C01 number: the boolean matching helper accepts iff the reference accepts")
 	verifReach("end")
 }
 
@@ -83,7 +85,9 @@ func verifH_C01_string() {
 		v = verifNondetBool("vb")
 	}
 	err := verifVisit(s, v, 0)
-	verifAssert((err == nil) == verifRef(s, v), "C01 string: accept iff reference accepts")
+	want := verifRef(s, v)
+	verifAssert((err == nil) == want, "C01 string: accept iff reference accepts")
+	verifAssert(s.IsMatching(v) == want, "C01 string: the boolean matching helper accepts iff the reference accepts")
 	verifReach("end")
 }
 
@@ -325,7 +329,9 @@ func verifH_C01_compose() {
 	}
 	v := verifLeafValue("v", verifChoose("vkind", 3), 1)
 	err := verifVisit(s, v, 0)
-	verifAssert((err == nil) == verifRef(s, v), "C01 composition: accept iff reference accepts")
+	want := verifRef(s, v)
+	verifAssert((err == nil) == want, "C01 composition: accept iff reference accepts")
+	verifAssert(s.IsMatching(v) == want, "C01 composition: the boolean matching helper accepts iff the reference accepts")
 	verifReach("end")
 }
 
@@ -344,7 +350,9 @@ func verifH_C01_compose2() {
 	})
 	v := verifLeafValue("v", verifChoose("vkind", 3), 1)
 	err := verifVisit(s, v, 0)
-	verifAssert((err == nil) == verifRef(s, v), "C01 nested composition: accept iff reference accepts")
+	want := verifRef(s, v)
+	verifAssert((err == nil) == want, "C01 nested composition: accept iff reference accepts")
+	verifAssert(s.IsMatching(v) == want, "C01 nested composition: the boolean matching helper accepts iff the reference accepts")
 	verifReach("end")
 }
 
